@@ -350,6 +350,10 @@ OpStep(e) ==
           [] e.op = "drain" -> e.al = <<>> /\ (e.n = 0 => obsX[t].asz = prex.asz)
           [] e.op = "new" -> obsX[t].asz = 0
           [] OTHER -> TRUE
+      \* C13: under insert/remove churn with at most nk live elements and no explicit reservation the allocation stays
+      \* within a fixed multiple (deliberately generous: 16x) of the space needed for nk elements
+      chkChurn == (hd.churn = 1 /\ hd.nk > 0) =>
+                    \A i \in 1..hd.nt : lvAfter(i) => obsX[i].asz <= 16 * LayoutSize(hd.es, hd.ea, CapToBuckets(hd.nk, hd.es))
       chkPanic == e.pn \in {"", "index", "dup", "noteq"}
       opp == OpProp(e.op, hd.kind)
       \* (a table whose observed state did not change was checked when it last changed)
@@ -367,6 +371,7 @@ OpStep(e) ==
              \cup (IF ~chkFresh THEN {<<"an object created during the call is neither stored nor dropped (leak)", {"C03", "C04"} \cup opp>>} ELSE {})
              \cup (IF ~chkLen THEN {<<"len()/capacity() contract", {"C08"} \cup opp>>} ELSE {})
              \cup (IF ~chkAlloc THEN {<<"allocator ledger / allocation_size", {"C03", "C08", "C13"} \cup (IF e.op = "drain" THEN {"C10"} ELSE {})>>} ELSE {})
+             \cup (IF ~chkChurn THEN {<<"allocation grew beyond 16x the space needed for the live-size bound under insert/remove churn", {"C13"}>>} ELSE {})
              \cup (IF ~chkNoAlloc THEN {<<"allocation although len < capacity", {"C08"}>>} ELSE {})
              \cup (IF ~chkReserve THEN {<<"capacity contract of " \o e.op, {"C08"} \cup (IF e.op = "try_reserve" THEN {"C12"} ELSE {})
                                                                               \cup (IF e.op = "drain" THEN {"C10"} ELSE {})>>} ELSE {})
